@@ -7,6 +7,8 @@ import (
 	"strings"
 
 	"github.com/fluffle/goirc/state"
+
+	"verif/harness/rig"
 )
 
 // TOp is one call on the Tracker interface.
@@ -505,6 +507,7 @@ func (m *TModel) Canon() string {
 
 // RunOnTracker performs op on a real tracker.
 func RunOnTracker(st state.Tracker, o TOp) TRet {
+	rig.CallTick()
 	a := o.A
 	switch o.Kind {
 	case "NewNick":
@@ -685,6 +688,7 @@ func privMapStr(m map[string]*state.ChanPrivs) string {
 // Sweep compares every query over the universe with the model; returns the
 // first difference or "".
 func Sweep(st state.Tracker, m *TModel, nicks, chans []string) string {
+	rig.CallTick()
 	if got, want := (TRet{Nick: st.Me()}), (TRet{Nick: m.NickSnap(m.Me)}); !RetEq("Me", got, want) {
 		return fmt.Sprintf("Me() = %s, model %s", RetString(got), RetString(want))
 	}
